@@ -2,6 +2,7 @@
 package mount
 
 import (
+	"errors"
 	"io"
 	"path"
 	"strings"
@@ -205,6 +206,13 @@ func (fs *FS) Rename(oldname, newname string) error {
 	_, err = io.Copy(newFileWriter, oldFile)
 	if closeErr := newFile.Close(); err == nil {
 		err = closeErr
+	}
+	if err == nil {
+		// an existing destination keeps its own mode when opened, the renamed file must keep the source's
+		chmodErr := hackpadfs.Chmod(newMount, newSubPath, oldInfo.Mode())
+		if !errors.Is(chmodErr, hackpadfs.ErrNotImplemented) {
+			err = chmodErr
+		}
 	}
 	if err != nil {
 		_ = hackpadfs.Remove(newMount, newSubPath)
